@@ -55,7 +55,10 @@ NudgeCalendar(sign, r, destNs, startDT, inc, unit, mode) ==
                                        ELSE CASE um = "half-zero" -> FALSE [] um = "half-infinity" -> TRUE [] um = "half-even" -> ~r1Even
               pick == IF up THEN b.ed ELSE b.sd
           IN [kind |-> "ok", dur |-> ID(pick.y, pick.mo, pick.w, pick.d, Zero), expanded |-> up, nudged |-> IF up THEN eNs ELSE sNs,
-              r1 |-> b.r1, num |-> num, den |-> den, startNs |-> sNs, endNs |-> eNs]
+              r1 |-> b.r1, num |-> num, den |-> den, startNs |-> sNs, endNs |-> eNs,
+              \* Temporal asserts startEpochNs <= destEpochNs <= endEpochNs; from a constrained month end the end point can lie beyond the
+              \* bracket (2020-03-31 + P30DT23H59M59.999999999S is past 03-31 + P1M = 04-30T00:00 while counting 0 whole months): unspecified
+              outside |-> Cmp(num, den) > 0 \/ Sub(destNs, sNs).s = -sign]
 
 \* NudgeToDayOrTime
 NudgeDayTime(r, destNs, largest, inc, unit, mode) ==
@@ -68,7 +71,7 @@ NudgeDayTime(r, destNs, largest, inc, unit, mode) ==
       dateCat == largest \in DateUnits
       days == IF dateCat THEN ToInt(rwhole) ELSE 0
       rem == IF dateCat THEN Sub(rounded, Mul(rwhole, DayNsBig)) ELSE rounded
-  IN [kind |-> "ok", dur |-> ID(r.y, r.mo, r.w, days, rem), expanded |-> expanded, nudged |-> Add(Sub(rounded, td), destNs)]
+  IN [kind |-> "ok", dur |-> ID(r.y, r.mo, r.w, days, rem), expanded |-> expanded, nudged |-> Add(Sub(rounded, td), destNs), outside |-> FALSE]
 
 \* BubbleRelativeDuration: carry into the larger units while the nudged end point has reached their next boundary
 RECURSIVE Bubble(_, _, _, _, _, _)
@@ -92,8 +95,8 @@ RoundRelative(r, destNs, startDT, largest, inc, unit, mode) ==
            ELSE NudgeDayTime(r, destNs, largest, inc, unit, mode)
   IN IF n.kind # "ok" THEN n
      ELSE IF n.expanded /\ unit # "week" /\ largest \in DateUnits
-          THEN [kind |-> "ok", dur |-> Bubble(sign, n.dur, n.nudged, startDT, largest, UnitIdx(UnitMax(unit, "day")) + 1)]
-          ELSE [kind |-> "ok", dur |-> n.dur]
+          THEN [kind |-> "ok", dur |-> Bubble(sign, n.dur, n.nudged, startDT, largest, UnitIdx(UnitMax(unit, "day")) + 1), outside |-> n.outside]
+          ELSE [kind |-> "ok", dur |-> n.dur, outside |-> n.outside]
 
 \* target of adding D (Dur10) to the reference date at midnight
 TargetOf(rel, D) ==
@@ -117,7 +120,7 @@ RoundRel(rel, D, largest, smallest, inc, mode) ==
      ELSE LET diff == DiffDTRec(start, tg.val, largest)
           IN IF smallest = "nanosecond" /\ inc = 1 THEN DurNew(ToDur(diff, largest))
              ELSE LET rr == RoundRelative(diff, EpochNsOf(tg.val), start, largest, inc, smallest, mode)
-                  IN IF rr.kind # "ok" THEN ErrRange ELSE DurNew(ToDur(rr.dur, largest))
+                  IN IF rr.kind # "ok" THEN ErrRange ELSE IF rr.outside THEN [kind |-> "any"] ELSE DurNew(ToDur(rr.dur, largest))
 
 \* Duration.total(unit, relativeTo: rel) as an exact rational [n, d] (d > 0)
 TotalRel(rel, D, unit) ==
@@ -130,6 +133,7 @@ TotalRel(rel, D, unit) ==
              THEN LET sign == IF IDSign(diff) < 0 THEN -1 ELSE 1
                       n == NudgeCalendar(sign, diff, EpochNsOf(tg.val), start, 1, unit, "trunc")
                   IN IF n.kind # "ok" THEN ErrRange
+                     ELSE IF n.outside THEN [kind |-> "any"]
                      ELSE Ok([n |-> Add(Mul(FromInt(n.r1), n.den), MulSmall(n.num, sign)), d |-> n.den])
              ELSE Ok([n |-> Add(diff.t, Mul(DayNsBig, FromInt(diff.d))), d |-> UnitNsBig(unit)])
 
